@@ -90,12 +90,30 @@ def roundInt (d : D) : Int :=
   let c := rescale0 d
   if d.neg then - (c : Int) else (c : Int)
 
-/-- numeric comparison -/
-def cmp (a b : D) : Ordering :=
+/-- numeric comparison by aligning the exponents -/
+def cmpAligned (a b : D) : Ordering :=
   let e := min a.exp b.exp
   let ca : Int := (if a.neg then -1 else 1) * ((a.coeff * 10 ^ (a.exp - e).toNat : Nat) : Int)
   let cb : Int := (if b.neg then -1 else 1) * ((b.coeff * 10 ^ (b.exp - e).toNat : Nat) : Int)
   compare ca cb
+
+/-- numeric comparison of two numbers whose exponents are far apart, without building the power of ten:
+    zero and sign first, then the adjusted exponents (position of the leading digit) -/
+def cmpFar (a b : D) : Ordering :=
+  let sa : Int := if a.coeff == 0 then 0 else if a.neg then -1 else 1
+  let sb : Int := if b.coeff == 0 then 0 else if b.neg then -1 else 1
+  if sa != sb then compare sa sb
+  else if sa == 0 then .eq
+  else
+    let adjA : Int := a.exp + (ndigits a.coeff : Int)
+    let adjB : Int := b.exp + (ndigits b.coeff : Int)
+    if adjA == adjB then cmpAligned a b
+    else if sa == 1 then compare adjA adjB else compare adjB adjA
+
+/-- numeric comparison (exact, as `Decimal.__lt__` / `__eq__`); exponents more than 5000 apart (texts such as
+    `8e96093022208`) are compared by magnitude instead of by aligning, which is the same order -/
+def cmp (a b : D) : Ordering :=
+  if (a.exp - b.exp).natAbs > 5000 then cmpFar a b else cmpAligned a b
 
 def eq (a b : D) : Bool := cmp a b == .eq
 
